@@ -62,6 +62,19 @@ type Case struct {
 	Reads       []int  `json:"reads"`         // destination buffer sizes, cycled
 	Chunk       int    `json:"chunk"`         // source hands out at most Chunk octets per Read (0: no limit)
 	EOFWithData bool   `json:"eof_with_data"` // source reports io.EOF together with the final octets
+	// EmptyFinal: the honest stream is the OTHER legal draft-02 encoding of a payload that is a
+	// non-zero multiple of rs: full records followed by an explicit empty final record (its proof
+	// SHA-256(0x00) is the last thing in the stream). The repository's encoder never emits it,
+	// its decoder accepts it; the digest is that of this cut. Delivery is not demanded.
+	EmptyFinal bool `json:"empty_final,omitempty"`
+}
+
+// records returns the records the honest stream of the case is cut into.
+func records(draft int, p []byte, rs int, emptyFinal bool) [][]byte {
+	if emptyFinal {
+		return refmice.RecordsEmptyFinal(p, rs)
+	}
+	return refmice.Records(draft, p, rs)
 }
 
 func filler(seed int64, n int) []byte {
@@ -131,9 +144,9 @@ func cat(parts ...[]byte) []byte {
 }
 
 // units cuts the honest stream into its "record || proof of next record" units.
-func units(draft int, p []byte, rs int) [][]byte {
-	recs := refmice.Records(draft, p, rs)
-	proofs := refmice.Proofs(draft, p, rs)
+func units(draft int, p []byte, rs int, ef bool) [][]byte {
+	recs := records(draft, p, rs, ef)
+	proofs := refmice.ProofsOf(recs)
 	var us [][]byte
 	for i, rec := range recs {
 		u := append([]byte{}, rec...)
@@ -146,7 +159,7 @@ func units(draft int, p []byte, rs int) [][]byte {
 }
 
 // apply returns the mutated stream; ok=false when the mutation's parameters do not fit the stream.
-func (m Mut) apply(draft int, p []byte, rs int, honest []byte) (out []byte, ok bool) {
+func (m Mut) apply(draft int, p []byte, rs int, honest []byte, ef bool) (out []byte, ok bool) {
 	clone := func() []byte { return append([]byte{}, honest...) }
 	switch m.Kind {
 	case "none":
@@ -190,7 +203,7 @@ func (m Mut) apply(draft int, p []byte, rs int, honest []byte) (out []byte, ok b
 		}
 		q := append([]byte{}, p...)
 		q[m.B/8] ^= 0x80 >> uint(m.B%8)
-		other, _ := refmice.Encode(draft, q, rs)
+		other, _ := refmice.EncodeRecords(draft, records(draft, q, rs, ef), rs)
 		if m.A > len(honest) || m.A > len(other) {
 			return nil, false
 		}
@@ -199,15 +212,15 @@ func (m Mut) apply(draft int, p []byte, rs int, honest []byte) (out []byte, ok b
 	if len(honest) < 8 {
 		return nil, false
 	}
-	us := units(draft, p, rs)
+	us := units(draft, p, rs, ef)
 	n := len(us)
 	switch m.Kind {
 	case "swap":
 		if m.A < 0 || m.B <= m.A || m.B >= n {
 			return nil, false
 		}
-		recs := refmice.Records(draft, p, rs)
-		proofs := refmice.Proofs(draft, p, rs)
+		recs := records(draft, p, rs, ef)
+		proofs := refmice.ProofsOf(recs)
 		recs[m.A], recs[m.B] = recs[m.B], recs[m.A]
 		out = append(out, honest[:8]...)
 		for i, rec := range recs {
@@ -268,9 +281,14 @@ func check(c Case, r *vh.R) {
 	}
 	p := c.payload()
 	rs := c.RS
-	honest, honestHeader := refmice.Encode(c.Draft, p, rs)
-	proof0 := refmice.Proof0(c.Draft, p, rs)
-	stream, ok := c.Mut.apply(c.Draft, p, rs, honest)
+	if c.EmptyFinal && (c.Draft != 2 || len(p) == 0 || len(p)%rs != 0) {
+		r.Skip = true
+		return
+	}
+	recs := records(c.Draft, p, rs, c.EmptyFinal)
+	honest, honestHeader := refmice.EncodeRecords(c.Draft, recs, rs)
+	proof0 := refmice.ProofsOf(recs)[0]
+	stream, ok := c.Mut.apply(c.Draft, p, rs, honest, c.EmptyFinal)
 	if !ok {
 		r.Skip = true
 		return
@@ -287,6 +305,12 @@ func check(c Case, r *vh.R) {
 	}
 	same := bytes.Equal(stream, honest)
 	nrec := (len(p) + rs - 1) / rs
+	geomLen := len(p) // payload length whose ordinary cut has the unit boundaries of this stream
+	if c.EmptyFinal {
+		r.Class("honest-form:explicit-empty-final-record")
+		nrec++
+		geomLen++
+	}
 
 	// ------------------------------------------------------------------ classes / non-triviality
 	r.Classf("draft%02d", c.Draft)
@@ -309,12 +333,12 @@ func check(c Case, r *vh.R) {
 	}
 	if committed && !same && len(stream) < len(honest) && bytes.Equal(stream, honest[:len(stream)]) {
 		r.Class("truncation")
-		unitEnds, recordEnds := refmice.UnitEnds(c.Draft, len(p), rs)
+		unitEnds, recordEnds := refmice.UnitEnds(c.Draft, geomLen, rs)
 		switch {
 		case contains(unitEnds, len(stream)):
 			r.Class("truncate-at-record-boundary")
 			r.Class("truncate-at-unit-end")
-			if len(p)%rs == 0 && len(stream) == unitEnds[len(unitEnds)-1] {
+			if len(p)%rs == 0 && !c.EmptyFinal && len(stream) == unitEnds[len(unitEnds)-1] {
 				r.Class("truncate-before-full-size-last-record")
 			}
 		case contains(recordEnds, len(stream)):
@@ -357,7 +381,7 @@ func check(c Case, r *vh.R) {
 			return
 		}
 	}
-	mustDeliver := committed && same && !badSize
+	mustDeliver := committed && same && !badSize && !c.EmptyFinal
 	if err != nil {
 		r.Class("rejected-at-newdecoder")
 		if mustDeliver {
@@ -469,6 +493,9 @@ func check(c Case, r *vh.R) {
 			return
 		}
 		r.Class("clean-eof-full")
+		if c.EmptyFinal {
+			r.Class("explicit-empty-final-record:clean-eof-full")
+		}
 		return
 	}
 	r.Class("error-after-prefix")
@@ -564,85 +591,97 @@ func TestExhaustiveMutations(t *testing.T) {
 					if cfg%shards != shard {
 						continue
 					}
-					nStreams++
-					hl := honestLen(draft, l, rs)
-					nrec := (l + rs - 1) / rs
-					if l == 0 && draft == 2 {
-						nrec = 1
+					forms := []bool{false}
+					if draft == 2 && l > 0 && l%rs == 0 {
+						forms = append(forms, true) // the same payload cut with an explicit empty final record
 					}
-					base := Case{Draft: draft, RS: rs, Len: l, Payload: p, MaxRS: 16384}
-					i := 0
-					run := func(m Mut, max uint64) bool {
-						c := base
-						c.Mut = m
-						c.MaxRS = max
-						c.Reads = readPattern(rs, i)
-						c.Chunk = []int{0, 1, 7, 0}[i/8%4]
-						c.EOFWithData = i/32%2 == 1
-						i++
-						nCases++
-						return exhProp.One(t, c)
-					}
-					limits := []uint64{16384, uint64(rs) - 1, uint64(rs), uint64(rs) + 1}
-					for _, max := range limits {
-						if !run(Mut{Kind: "none"}, max) {
-							return
+					for _, ef := range forms {
+						nStreams++
+						hl := honestLen(draft, l, rs)
+						nrec := (l + rs - 1) / rs
+						if l == 0 && draft == 2 {
+							nrec = 1
 						}
-					}
-					for b := 0; b < 8*hl; b++ {
-						if !run(Mut{Kind: "flip", A: b}, 16384) {
-							return
+						geomLen := l
+						if ef {
+							hl += refmice.ProofLen
+							nrec++
+							geomLen++
 						}
-						if b < 64 { // flips inside the record-size field also against tight limits
-							for _, max := range limits[1:] {
-								if !run(Mut{Kind: "flip", A: b}, max) {
-									return
-								}
-							}
+						base := Case{Draft: draft, RS: rs, Len: l, Payload: p, MaxRS: 16384, EmptyFinal: ef}
+						i := 0
+						run := func(m Mut, max uint64) bool {
+							c := base
+							c.Mut = m
+							c.MaxRS = max
+							c.Reads = readPattern(rs, i)
+							c.Chunk = []int{0, 1, 7, 0}[i/8%4]
+							c.EOFWithData = i/32%2 == 1
+							i++
+							nCases++
+							return exhProp.One(t, c)
 						}
-					}
-					for n := 0; n < hl; n++ {
-						if !run(Mut{Kind: "trunc", A: n}, 16384) {
-							return
-						}
-					}
-					for _, n := range dedupInts([]int{1, 2, 7, 8, 9, 31, 32, 33, rs, rs + 32}) {
-						for _, seed := range []int64{0, int64(1000*cfg + n)} {
-							if !run(Mut{Kind: "append", A: n, Seed: seed}, 16384) {
+						limits := []uint64{16384, uint64(rs) - 1, uint64(rs), uint64(rs) + 1}
+						for _, max := range limits {
+							if !run(Mut{Kind: "none"}, max) {
 								return
 							}
 						}
-					}
-					if hl >= 8 {
-						for _, u := range []uint64{0, 1, uint64(rs) - 1, uint64(rs) + 1, 16384, 16385, 1 << 63, ^uint64(0)} {
-							for _, max := range limits {
-								if !run(Mut{Kind: "recsize", U: u}, max) {
+						for b := 0; b < 8*hl; b++ {
+							if !run(Mut{Kind: "flip", A: b}, 16384) {
+								return
+							}
+							if b < 64 { // flips inside the record-size field also against tight limits
+								for _, max := range limits[1:] {
+									if !run(Mut{Kind: "flip", A: b}, max) {
+										return
+									}
+								}
+							}
+						}
+						for n := 0; n < hl; n++ {
+							if !run(Mut{Kind: "trunc", A: n}, 16384) {
+								return
+							}
+						}
+						for _, n := range dedupInts([]int{1, 2, 7, 8, 9, 31, 32, 33, rs, rs + 32}) {
+							for _, seed := range []int64{0, int64(1000*cfg + n)} {
+								if !run(Mut{Kind: "append", A: n, Seed: seed}, 16384) {
 									return
 								}
 							}
 						}
-						unitEnds, recordEnds := refmice.UnitEnds(draft, l, rs)
-						for _, u := range dedupInts([]int{rs + 31, rs + 32, rs + 33, 2*rs + 64, hl - 8, hl, 16384}) {
-							for _, cut := range dedupInts(append(append([]int{hl}, unitEnds...), recordEnds...)) {
-								if u == 0 {
-									continue
+						if hl >= 8 {
+							for _, u := range []uint64{0, 1, uint64(rs) - 1, uint64(rs) + 1, 16384, 16385, 1 << 63, ^uint64(0)} {
+								for _, max := range limits {
+									if !run(Mut{Kind: "recsize", U: u}, max) {
+										return
+									}
 								}
-								if !run(Mut{Kind: "reframe", U: uint64(u), A: cut}, 16384) {
+							}
+							unitEnds, recordEnds := refmice.UnitEnds(draft, geomLen, rs)
+							for _, u := range dedupInts([]int{rs + 31, rs + 32, rs + 33, 2*rs + 64, hl - 8, hl, 16384}) {
+								for _, cut := range dedupInts(append(append([]int{hl}, unitEnds...), recordEnds...)) {
+									if u == 0 {
+										continue
+									}
+									if !run(Mut{Kind: "reframe", U: uint64(u), A: cut}, 16384) {
+										return
+									}
+								}
+							}
+							for a := 0; a < nrec; a++ {
+								for b := a + 1; b < nrec; b++ {
+									if !run(Mut{Kind: "swap", A: a, B: b}, 16384) || !run(Mut{Kind: "swapunit", A: a, B: b}, 16384) {
+										return
+									}
+								}
+								if !run(Mut{Kind: "dup", A: a}, 16384) || !run(Mut{Kind: "drop", A: a}, 16384) {
 									return
 								}
-							}
-						}
-						for a := 0; a < nrec; a++ {
-							for b := a + 1; b < nrec; b++ {
-								if !run(Mut{Kind: "swap", A: a, B: b}, 16384) || !run(Mut{Kind: "swapunit", A: a, B: b}, 16384) {
+								if a >= 1 && !run(Mut{Kind: "setproof", A: a, Seed: int64(cfg)}, 16384) {
 									return
 								}
-							}
-							if !run(Mut{Kind: "dup", A: a}, 16384) || !run(Mut{Kind: "drop", A: a}, 16384) {
-								return
-							}
-							if a >= 1 && !run(Mut{Kind: "setproof", A: a, Seed: int64(cfg)}, 16384) {
-								return
 							}
 						}
 					}
@@ -717,6 +756,11 @@ func TestPropMutation(t *testing.T) {
 		rs := c.RS
 		hl := honestLen(c.Draft, c.Len, rs)
 		nrec := (c.Len + rs - 1) / rs
+		if c.Draft == 2 && c.Len > 0 && c.Len%rs == 0 && rapid.IntRange(0, 2).Draw(t, "empty-final") == 0 {
+			c.EmptyFinal = true
+			hl += refmice.ProofLen
+			nrec++
+		}
 		unit := rs + refmice.ProofLen
 		kind := rapid.SampledFrom([]string{"flip", "flip", "flip", "trunc", "trunc", "trunc", "append", "swap", "swapunit", "dup", "drop", "recsize", "reframe", "reframe", "setproof", "splice", "none"}).Draw(t, "mutation")
 		m := Mut{Kind: kind}
